@@ -17,6 +17,7 @@ RULE = ("each local grid family (Trapezoidal boundary on/off, Simpson, Clenshaw-
         "levels, box); non-trivial = sub-box != domain or anisotropic level vector")
 RULE += (" " + 'The grid object carries a history of 0..3 earlier setCurrentArea/get_points_and_weights calls on other boxes (incl. boxes glued to the global boundary), as the strategies reuse one object.')
 RULE += (" In a third of the cases a sibling grid object of the same family with the opposite boundary flag / another order is used first on the same boxes (class-level state must not leak between objects).")
+RULE += (" Domain and sub-box are handed over as float arrays, lists, tuples and - on whole-number boxes - as python ints or integer-typed arrays.")
 RULE += (" Trapezoidal grids are also run with per-dimension boundary flags (set_boundaries) on a grid object that is used twice.")
 REQUIRED = ["count_matches", "points_inside", "weight_sum_is_volume", "polynomial_exactness", "trapezoid_boundary_off_consistent"]
 MIN_NONTRIVIAL = {"quick": 800, "thorough": 10000}
@@ -56,9 +57,9 @@ def subbox(rng, a, b):
     return s, e
 
 
-def make_grid(family, a, b, p):
+def make_grid(family, a, b, p, mode="float_array"):
     import sparseSpACE.Grid as G
-    a, b = np.array(a), np.array(b)
+    a, b = hooks.typed(a, mode), hooks.typed(b, mode)
     if family == "Trapezoidal":
         return G.TrapezoidalGrid(a, b, boundary=True)
     if family == "TrapezoidalNB":
@@ -99,12 +100,29 @@ def run_case(case, res):
     lv = [rng.randint(0, maxl) for _ in range(d)]
     if family in ("Lagrange", "BSpline") and d >= 2:
         lv = [min(l, 3) for l in lv]
-    kind, a, b = hooks.gen_box(rng, d, ["unit", "unit", "shifted", "negative", "aniso", "dyadic", "tiny", "huge"])
+    kind, a, b = hooks.gen_box(rng, d, ["unit", "unit", "shifted", "negative", "aniso", "dyadic", "tiny", "huge", "integer"])
     s, e = subbox(rng, a, b)
+    # how the caller hands over a, b, start, end: float arrays (default), or lists / tuples / integer-typed values
+    mode = "float_array"
+    if kind == "integer":
+        mode = rng.choice(hooks.INPUT_MODES)
+        s, e = list(a), list(b)
+        for k in range(d):      # sub-boxes with whole-number corners: halve while the width stays even
+            while e[k] - s[k] >= 2 and rng.random() < 0.5:
+                m = 0.5 * (s[k] + e[k])
+                if rng.random() < 0.5:
+                    e[k] = m
+                else:
+                    s[k] = m
+    elif rng.random() < 0.15:
+        mode = rng.choice(["float_list", "float_tuple", "int_list"])
+    if mode != "float_array":
+        res.count("box_given_as_" + mode)
     cfg = {"family": family, "d": d, "p": p if family in ("Lagrange", "BSpline") else None, "levels": lv, "a": a, "b": b,
            "start": s, "end": e, "box": kind}
+    cfg["input_mode"] = mode
     res.sample = {"config": cfg}
-    grid = make_grid(family, a, b, p)
+    grid = make_grid(family, a, b, p, mode)
     # the strategies reuse ONE grid object for all sub-boxes: the observed call is preceded by a history of other boxes/levels
     nprev = rng.choice([0, 0, 1, 2, 3])
     for _ in range(nprev):
@@ -155,7 +173,7 @@ def run_case(case, res):
             cfg["sibling_first"] = True
         except Exception:
             pass
-    grid.setCurrentArea(np.array(s), np.array(e), lv)
+    grid.setCurrentArea(hooks.typed(s, mode), hooks.typed(e, mode), lv)
     pts, w = grid.get_points_and_weights()
     pts = [tuple(float(x) for x in q) for q in pts]
     w = np.asarray(w, dtype=float)
@@ -202,7 +220,7 @@ def run_case(case, res):
                 ex *= 1.5 if mi[k] == 0 else 0.5
             exact.append(ex)
         f = hooks.VFunction(comps)
-        val = np.atleast_1d(np.asarray(grid.integrate(f, lv, np.array(s), np.array(e)), dtype=float))
+        val = np.atleast_1d(np.asarray(grid.integrate(f, lv, hooks.typed(s, mode), hooks.typed(e, mode)), dtype=float))
         if nodal or family == "TrapezoidalNB":
             scale = float(np.sum(np.abs(w))) * 1.5 ** d
         else:
@@ -218,7 +236,7 @@ def run_case(case, res):
                 for k in range(d):
                     v *= float(rm.legendre_shifted(literal[k], x[k], s[k], e[k])) + 0.5
                 return v
-            val2 = np.atleast_1d(np.asarray(grid.integrate(hooks.VFunction([g2]), lv, np.array(s), np.array(e)), dtype=float))
+            val2 = np.atleast_1d(np.asarray(grid.integrate(hooks.VFunction([g2]), lv, hooks.typed(s, mode), hooks.typed(e, mode)), dtype=float))
             ex2 = vol
             for k in range(d):
                 ex2 *= 1.5 if literal[k] == 0 else 0.5
@@ -228,11 +246,11 @@ def run_case(case, res):
                           p, npts1d, degs, literal), cfg)
     # trapezoid: boundary off == boundary on minus the points on the global boundary
     if family in ("Trapezoidal", "TrapezoidalNB"):
-        gon = make_grid("Trapezoidal", a, b, p)
-        goff = make_grid("TrapezoidalNB", a, b, p)
-        gon.setCurrentArea(np.array(s), np.array(e), lv)
+        gon = make_grid("Trapezoidal", a, b, p, mode)
+        goff = make_grid("TrapezoidalNB", a, b, p, mode)
+        gon.setCurrentArea(hooks.typed(s, mode), hooks.typed(e, mode), lv)
         pon, won = gon.get_points_and_weights()
-        goff.setCurrentArea(np.array(s), np.array(e), lv)
+        goff.setCurrentArea(hooks.typed(s, mode), hooks.typed(e, mode), lv)
         poff, woff = goff.get_points_and_weights()
         don = {tuple(float(x) for x in q): float(ww) for q, ww in zip(pon, won)}
         doff = {tuple(float(x) for x in q): float(ww) for q, ww in zip(poff, woff)}
